@@ -122,11 +122,12 @@ fn run_case(c: &Case, rep: &mut CaseReport) -> Verdict {
             return Verdict::Discard("start failed".into());
         }
     };
-    let wal_dir = case.path.join("wal").join("shard-0");
+    let wal_dir = case.path.join("wal").join("shard-7");
     let arch_root = case.path.join("wal").join("archived");
-    let arch_dir = arch_root.join("shard-0");
-    // the engine's own WAL writer owns wal-00000.log of this lifetime: move it out of the way
-    let _ = std::fs::remove_file(wal_dir.join("wal-00000.log"));
+    let arch_dir = arch_root.join("shard-7");
+    // the cleanup runs on the WAL directory of a shard id (7) that the hosting engine (1 shard) does not run, so that no
+    // live WAL writer, recovery or flush of the host touches the generated files (correction 19 in DESIGN.md)
+    let _ = std::fs::create_dir_all(&wal_dir);
     // expected archive content so far: list of (log order key, lines)
     // archive name -> (round, log id, the log's valid lines)
     let mut expected_archives: std::collections::BTreeMap<String, (u64, u64, Vec<String>)> = std::collections::BTreeMap::new();
@@ -146,7 +147,7 @@ fn run_case(c: &Case, rep: &mut CaseReport) -> Verdict {
             .iter()
             .map(|f| json!({"id": f.id, "torn_tail": f.torn_tail, "entries": f.entries.iter().map(|e| json!({"ts": e.ts, "ctx": e.ctx, "type": e.ty, "payload": e.payload, "event_id": e.event_id})).collect::<Vec<_>>()}))
             .collect();
-        let written = match db.req(json!({"op":"internal","what":"mkwal","shard":0,"files": files_json})) {
+        let written = match db.req(json!({"op":"internal","what":"mkwal","shard":7,"files": files_json})) {
             Ok(v) => v,
             Err(e) => return Verdict::fail("worker-died", json!({"error": e.to_string()})),
         };
@@ -169,15 +170,17 @@ fn run_case(c: &Case, rep: &mut CaseReport) -> Verdict {
             Fault::ObstacleAt(ix) => {
                 for i in ix {
                     let f = &r.files[*i % r.files.len()];
-                    let _ = std::fs::create_dir_all(arch_dir.join(archive_name(f)));
-                    if f.id < r.keep_from {
+                    let obstacle = arch_dir.join(archive_name(f));
+                    let _ = std::fs::create_dir_all(&obstacle);
+                    // (an archive file of an earlier round may already sit at that name: then there is no obstacle)
+                    if f.id < r.keep_from && obstacle.is_dir() {
                         must_fail = true;
                     }
                 }
             }
         }
         let before: BTreeSet<String> = std::fs::read_dir(&wal_dir).map(|d| d.flatten().map(|e| e.file_name().to_string_lossy().to_string()).collect()).unwrap_or_default();
-        let res = match db.req(json!({"op":"internal","what":"walclean","shard":0,"keep_from": r.keep_from})) {
+        let res = match db.req(json!({"op":"internal","what":"walclean","shard":7,"keep_from": r.keep_from})) {
             Ok(v) => v,
             Err(DbError::Timeout) => {
                 rep.inconclusive = Some("watchdog".into());
@@ -207,7 +210,7 @@ fn run_case(c: &Case, rep: &mut CaseReport) -> Verdict {
         }
         // which archives must exist now: every eligible file whose archive path was not obstructed
         let obstructed: BTreeSet<u64> = match &r.fault {
-            Fault::ObstacleAt(ix) => ix.iter().map(|i| r.files[*i % r.files.len()].id).collect(),
+            Fault::ObstacleAt(ix) => ix.iter().map(|i| &r.files[*i % r.files.len()]).filter(|f| arch_dir.join(archive_name(f)).is_dir()).map(|f| f.id).collect(),
             _ => BTreeSet::new(),
         };
         let dir_fault = matches!(r.fault, Fault::ArchiveDirIsFile) && ri == 0;
